@@ -8,6 +8,7 @@ B  the text report is parsed back (column positions from its header) and every p
 P  Frontend._user_warnings_header / _user_warnings_footer / _get_flag_symbols / _missing_instruction_error:
    warning text present iff flag (strings are concrete, flags symbolic).
 """
+import os
 import z3
 
 from pyvc.engine import Engine
@@ -448,6 +449,85 @@ def full_analysis_unit(res):
     return res
 
 
+def run_dispatch_unit(res):
+    """P: osaca.run and osaca.import_data (real code; argparse namespace as a ghost object with symbolic option values): exactly one
+    of the four activities runs - the database check iff --db-check (with the arch, verbose iff -v given at least once, the
+    internet option and the output stream), else the import iff an import was requested (benchmark kind, arch, the file's name and
+    the output stream unchanged; 'ibench' / 'asmbench' in any letter case select the reader, anything else is refused), else the
+    marker insertion iff asked for, else the analysis with the same arguments and output stream."""
+    ex = Engine([REPO + "/" + OS])
+    check_db, has_import, marker, inet = z3.Bools("check_db import_requested insert_marker internet_check")
+    verbose = z3.Int("verbose_count")
+    for kind in ("ibench", "IBench", "asmbench", "ASMBENCH", "other"):
+        def run(kind=kind):
+            log = []
+            fobj = SObj("File", name="the/file.s")
+
+            class Args:
+                def sym_getattr(self, ex_, attr):
+                    return {"check_db": SBool(check_db), "verbose": SNum(verbose, True), "arch": "zen2", "internet_check": SBool(inet),
+                            "import_data": kind, "file": fobj, "insert_marker": SBool(marker)}[attr]
+
+                def sym_contains(self, ex_, item):
+                    if item == "import_data":
+                        return SBool(has_import)
+                    raise Unsupported("membership test on the argument namespace: " + str(item))
+
+            args, out = Args(), SObj("Stream")
+            for nm in ("sanity_check", "import_benchmark_output", "insert_byte_marker", "inspect"):
+                ex.abstract[nm] = (lambda nm: lambda ex_, so, a, kw: log.append((nm, list(a), dict(kw))))(nm)
+            ex.extra.update(log=log, args=args, out=out)
+            return ex.call_function("run", [args], kw=dict(output_file=out))
+
+        paths = ex.explore(run, [verbose >= 0])
+
+        def post(v, p, kind=kind):
+            log, args, out = p.extra["log"], p.extra["args"], p.extra["out"]
+            if len(log) != 1:
+                return False
+            nm, a, kw = log[0]
+            allargs = lambda names: dict(zip(names, a), **kw)
+            if nm == "sanity_check":
+                g = allargs(["arch", "verbose", "internet_check", "output_file"])
+                ok = g.get("arch") == "zen2" and g.get("output_file") is out
+                return z3.And(check_db, z3.BoolVal(bool(ok)), bool_term(g.get("verbose", False)) == (verbose > 0), bool_term(g.get("internet_check", False)) == inet)
+            if nm == "import_benchmark_output":
+                g = allargs(["arch", "bench_type", "filepath", "output"])
+                ok = g.get("arch") == "zen2" and g.get("filepath") == "the/file.s" and g.get("output") is out and g.get("bench_type") == kind.lower() and kind != "other"
+                return z3.And(z3.Not(check_db), has_import, z3.BoolVal(bool(ok)))
+            if nm == "insert_byte_marker":
+                return z3.And(z3.Not(check_db), z3.Not(has_import), marker, z3.BoolVal(a[0] is args))
+            g = allargs(["args", "output_file"])
+            return z3.And(z3.Not(check_db), z3.Not(has_import), z3.Not(marker), z3.BoolVal(g.get("args") is args and g.get("output_file") is out))
+
+        res.add_paths(paths, post, exc_ok=lambda p, kind=kind: kind == "other" and p.outcome[1] == "NotImplementedError", kind=f"run/import-kind={kind}")
+    return res
+
+
+def arch_table_unit(res):
+    """P (finite, exhaustive): MachineModel.get_isa_for_arch executed for every architecture the command line accepts
+    (SUPPORTED_ARCHS, any letter case): the ISA it names is the one the model file of that architecture declares ('isa:' header of
+    osaca/data/<arch>.yml; emptied files are skipped), and each default architecture (DEFAULT_ARCHS) is a supported architecture of
+    exactly the ISA it is the default for - so 'the default model of the detected ISA' is a model of that ISA."""
+    import re as _re
+    ex = Engine([REPO + "/osaca/semantics/hw_model.py", REPO + "/" + OS])
+    supported = ex.eval(ex.consts["SUPPORTED_ARCHS"], {}, None)
+    defaults = ex.eval(ex.consts["DEFAULT_ARCHS"], {}, None)
+    res.add("tables-found", [], isinstance(supported, list) and len(supported) >= 10 and isinstance(defaults, dict) and set(defaults) == {"x86", "aarch64"})
+    for arch in supported:
+        for spelled in (arch, arch.lower()):
+            paths = ex.explore(lambda spelled=spelled: ex.call_method("MachineModel", "get_isa_for_arch", None, [spelled]), [])
+            path = os.path.join(REPO, "osaca", "data", arch.lower() + ".yml")
+            txt = open(path).read() if os.path.exists(path) else ""
+            m = _re.search(r"^isa:\s*(\S+)", txt, _re.M)
+            declared = m.group(1).strip("'\"").lower() if m else None
+            res.add_paths(paths, lambda v, p, declared=declared: v in ("x86", "aarch64") and (declared is None or v == declared), kind=f"isa-of/{spelled}")
+    for isa, arch in (defaults.items() if isinstance(defaults, dict) else []):
+        paths = ex.explore(lambda arch=arch: ex.call_method("MachineModel", "get_isa_for_arch", None, [arch]), [])
+        res.add_paths(paths, lambda v, p, isa=isa, arch=arch: v == isa and arch in supported, kind=f"default-of/{isa}")
+    return res
+
+
 def lcd_list_unit(res):
     """Pb: Frontend.loopcarried_dependencies (the LCD list of the text report) for 0-3 loop-carried dependencies with symbolic
     latencies: exactly one row per dependency (in any order), each showing the first member's line number, the
@@ -507,6 +587,8 @@ def units(tier):
         Unit("C13/_get_port_pressure(cell i shows pressure i or is blank)", pressure_cells_unit, "Pb", [(FE, "Frontend._get_port_pressure")], decisive=False),
         Unit("C13/detect_ISA(majority of register-name matches)", detect_isa_unit, "P", [("osaca/parser/base_parser.py", "BaseParser.detect_ISA")], decisive=False),
         Unit("C13/full_analysis(assembly of the text report)", full_analysis_unit, "P", [(FE, "Frontend.full_analysis")], decisive=False),
+        Unit("C13/run(dispatch of the command line)", run_dispatch_unit, "P", [(OS, "run"), (OS, "import_data")], decisive=False),
+        Unit("C13/architecture-table(get_isa_for_arch, defaults)", arch_table_unit, "P", [("osaca/semantics/hw_model.py", "MachineModel.get_isa_for_arch")], decisive=False),
         Unit("C13/loopcarried_dependencies(LCD list rows)", lcd_list_unit, "Pb", [(FE, "Frontend.loopcarried_dependencies")], decisive=False),
         Unit("C13/inspect/warning-flags-and-report-wiring", _inspect_unit(), "P", [(OS, "inspect")], decisive=False),
         bounded_unit("C13/report-vs-dict", "c13_report", [(FE, "Frontend.combined_view"), (FE, "Frontend.full_analysis_dict"), (FE, "Frontend.loopcarried_dependencies"),
